@@ -469,7 +469,12 @@ def avoid_dead_links(root, machine, wrap_around=False):
     # all disconnected subtrees being connected, the result is a fully
     # connected tree.
     for parent, child in broken_links:
-        child_chips = set(c.chip for c in lookup[child])
+        # NB: The nodes of the disconnected subtree are enumerated once, before
+        # the tree is modified below: overlapped nodes are re-parented as the
+        # new path is attached and so may no longer be reachable from
+        # lookup[child] by the time their old parent must be found.
+        child_nodes = list(lookup[child])
+        child_chips = set(c.chip for c in child_nodes)
 
         # Try to reconnect broken links to any other part of the tree
         # (excluding this broken subtree itself since that would create a
@@ -499,7 +504,7 @@ def avoid_dead_links(root, machine, wrap_around=False):
                 new_node = lookup[(x, y)]
 
                 # Find the node's current parent and disconnect it.
-                for node in lookup[child]:  # pragma: no branch
+                for node in child_nodes:  # pragma: no branch
                     dn = [(d, n) for d, n in node.children if n == new_node]
                     assert len(dn) <= 1
                     if dn:
